@@ -5,6 +5,7 @@ cd "$(dirname "$0")"
 export GOFLAGS=-mod=mod GOPROXY=off GOSUMDB=off GOTOOLCHAIN=local
 ROOT=$(pwd)
 REPO=${VERIF_REPO:-/repo}
+VARGS=()
 infra() { echo "INFRA-ERROR $*"; exit 2; }
 
 if [ "$1" = replay ]; then
@@ -18,6 +19,9 @@ fi
 
 case $ID in
   C06|C07|C08|C14) PKG=lane ;;
+  C19) PKG=c19 ;;
+  C02) PKG=c02 ;;
+  C12) PKG=c12; VARGS=(-const util/netutil:listSize=3) ;;
   *) infra "unknown property $ID" ;;
 esac
 
@@ -39,6 +43,7 @@ build() { # build <variant> <vinstr args...>  -> $WORK/check.<variant>
   go build "${MODFLAG[@]}" -overlay "$WORK/instr.$v/overlay.json" -o "$WORK/check.$v" ./checks/$PKG > "$WORK/build.$v.log" 2>&1 || { head -50 "$WORK/build.$v.log"; infra "instrumented build failed"; }
 }
 
-build main
+build main "${VARGS[@]}"
+grep -q CONST-NOT-FOUND "$WORK/vinstr.main.log" && infra "constant override not applicable: $(grep CONST-NOT-FOUND $WORK/vinstr.main.log)"
 "$WORK/check.main" -id "$ID" -tier "$TIER" -root "$ROOT" -variant main "${REPLAY[@]}"
 exit $?
